@@ -21,7 +21,7 @@ theorem LogLe.frames (n : Nat) (st : Core) (fs : List Frame) : LogLe st (runFram
 theorem LogLe.prim {a b : Core} (hp : CorePrim a b) : LogLe a b := by
   intro e he
   cases hp with
-  | regCleanup tag nested => rw [regCleanup_log]; exact he
+  | regCleanup tag nested drops => rw [regCleanup_log]; exact he
   | newItem v => rw [newItem_log]; exact he
   | addItemHandle k => exact he
   | newOwnerUnder p paused hp => rw [newOwnerUnder_log]; exact he
